@@ -444,8 +444,8 @@ example : (convertTrack 0 0 (flatL exTrackA ++ [⟨mds_SEGNO, 0⟩] ++ flatL exT
 /-! ## Whole songs of the fragment (third layer)
 
 `SongTop.PlainSong` = the fragment: track ids ascending, no explicit `END` event, every event of
-every track in `WFold.SimpleEv` (no platform command, no macro track = pan envelope on, no pitch
-envelope on, notes — in drum mode: routine numbers — inside the MDSDRV range) with the front end's
+every track in `WFold.SimpleEv` (no pitch envelope on; notes — in drum mode: routine numbers —
+inside the MDSDRV range) with the front end's
 timing (`SongSem.Timed`: 16-bit on/off times, only notes/ties have an on time, only notes/ties/rests
 an off time, a sounding note has at least one key-on tick) and loop counts 0..255, called tracks
 without loop point and without drum-mode switch (`SongTop.CalleeNoSeg`), drum-mode switches outside
@@ -461,8 +461,13 @@ The converter is `MdsFile.construct` (the constructor model of C09, with the ind
 the fragment both assemble the same chunk, which is not proved here but compared on every run by
 the correspondence check).  Extra hypotheses besides the fragment: the chunk is shorter than 64 KiB
 (`Seq.step` computes the loop-back target modulo 2^16), at most one loop point per channel track
-(`SongSplit.segCount`), `PlatformClean` (no platform `cmd` injects an index-bearing opcode; vacuous
-without platform commands). -/
+(`SongSplit.segCount`), `PlatformClean` (no platform `cmd` injects an index-bearing opcode), and
+`SongTop.PlatAgree d.platform pf`: every platform command the converter knows consists of events
+the theorems cover (`Fragment.platEvB`: `CARRY`, or a one- / two-argument command without index
+operand, `FLG` only with bit 7 set — i.e. `mode`, `lfo`, `lforate`, `fm3`, `write`, `pcmrate`,
+`pcmmode`, `carry`, and `cmd` with such an opcode) and the timeline reads it as what those events
+denote (`Fragment.platSpec`).  Macro tracks (`PAN_ENVELOPE` on) are inside: the `MTAB` operand is
+the macro index + 1 + number of subroutines, non-zero because it fits its byte (C09). -/
 
 /-- **C02 for whole songs of the fragment.**  For every channel track in `Timeline.inDomain`
 whose expected tick string is defined: the track table of the assembled chunk lists the channel,
@@ -536,5 +541,24 @@ example : Fragment.routineB exDrumSong 80 = true ∧ Fragment.routineB exDrumSon
 /-- `c`, then the drum section twice (the loop-back is followed once), with the routines' commands and the loop mark -/
 example : (Timeline.expected exDrumSong [] exDrumRoot).toOption.map (·.length) = some 215 := by
   decide +kernel
+
+/-- platform commands and a macro track: `A %1 c M1 %2 d` with `%1 = lfo 3 5`, `%2 = carry`, `*300` the
+macro track; the converter's table (what `parse_platform_event` makes of the two commands) agrees
+with the timeline's -/
+def exPlatSong : Song :=
+  { tracks := [(0, [exCmd ev_PLATFORM 1, exNote 36 24 0, exCmd ev_PAN_ENVELOPE 300, exCmd ev_PLATFORM 2, exNote 38 12 12]),
+      (300, [exCmd ev_PAN 1])] }
+def exPlatD : List (Int × Option (List MEv)) := [(1, some [⟨mds_LFO, 0x35⟩]), (2, some [⟨mds_CARRY, 0⟩])]
+def exPlatPf : Timeline.Platform := [(1, [(mds_LFO, 0x35)]), (2, [])]
+example : SongTop.PlainSong exPlatSong := SongTop.plainSong_of_B (by decide)
+example : SongTop.PlatAgree exPlatD exPlatPf := SongTop.platAgree_of_B (by decide)
+example : PlatformClean { platform := exPlatD } := by
+  intro k evs h
+  simp only [exPlatD, List.lookup] at h
+  split at h
+  · simp only [Option.some.injEq] at h; subst h; intro ev hev; simp at hev; subst hev; unfold Plain; decide
+  · split at h
+    · simp only [Option.some.injEq] at h; subst h; intro ev hev; simp at hev; subst hev; unfold Plain; decide
+    · cases h
 
 end Ctrmml.C02
